@@ -437,6 +437,33 @@ theorem zone_failure_needs_shared_evidence (z b c : Bool) (cause : Option ErrCla
   · simp
   · cases e <;> simp_all
 
+/-- **A latched rejection decides the outcome, whatever `resolve()` returned** —
+answer or failure: if a required debit was refused anywhere in the request tree
+(in every reachable ledger state with `first ≠ 0`), `Resolve` returns the policy
+error, so the client gets the over-budget SERVFAIL and nothing is cached as an
+ordinary answer. -/
+theorem latched_rejection_decides_outcome (p : Policy) (hm : p.mode = .enforce) (ls : List Label)
+    (hl : (lrun p {} ls).sh.first ≠ 0) (inner : Inner) :
+    ∃ k l, resolveOutcome p (lrun p {} ls).sh inner = .policy k l := by
+  have hok := first_names_a_kind p ls
+  rcases hok with h0 | ⟨k, hk⟩
+  · exact (hl h0).elim
+  · refine ⟨k, p.caps.get k, ?_⟩
+    unfold resolveOutcome enforcementError
+    simp [hm, hk, ofIdx_idx]
+
+/-- … and without a latched rejection the outcome is `resolve()`'s own. -/
+theorem unlatched_outcome_is_inner (p : Policy) (sh : Shared) (h : enforcementError p sh = .ok) :
+    resolveOutcome p sh .answer = .answer ∧ resolveOutcome p sh .failure = .failure := by
+  unfold resolveOutcome; rw [h]; exact ⟨rfl, rfl⟩
+
+/-- **A wire-born request stays metered**: the detached meta keeps the policy with
+or without request-tree state (model), and the compiled `detachedCopy` does so
+for an enforce and a shadow policy on a meta without a ledger host (Gen fact). -/
+theorem detached_request_stays_metered (p : Policy) (b : Bool) :
+    detachedPolicy p b = p ∧ SdnsVerif.Gen.C12.detached_copy_keeps_policy = true := by
+  exact ⟨rfl, by decide⟩
+
 /-- every error class the resolver marks as request-local is one the property
 lists (budget, attempt limit, probe limit, nesting bound, cancellation, deadline). -/
 theorem request_local_classes (e : ErrClass) : e.isRequestLocal = true ↔ e ≠ .other := by
@@ -526,7 +553,9 @@ they re-enter `resolve` (`FStep.descend` / `FStep.cached`); `rs.level++` and
 (`FStep.levelUp` / `FStep.nominRetry`); NS-address lookups consult `checkLoop`
 first; every `resolveState` literal in resolver.go carries `work` (`restart_keeps_ledger`);
 `cacheableResolutionFailure` reads the ledger itself when it decides, taking no
-snapshot parameter (`chased_budget_failure_not_cached`); the cache's alias chase (`additionalAnswer`) re-checks the request
+snapshot parameter (`chased_budget_failure_not_cached`); `Resolve` / `subQuery` re-read the latch after
+`resolve()` under no other condition than "a ledger exists" (`latched_rejection_decides_outcome`); `checkHosts`
+runs its address lookups on the request's own context; the cache's alias chase (`additionalAnswer`) re-checks the request
 deadline on every hop before it starts another internal exchange — the guard
 that turns `request_tree_terminates`' astronomically large bound into "stops at
 the query deadline" when no budget is enforced (see `chase_stops_at_deadline`). -/
@@ -539,7 +568,9 @@ theorem termination_guards_shape :
     SdnsVerif.Gen.C12.shape_checkloop_before_ns_lookup = true ∧
     SdnsVerif.Gen.C12.shape_chase_checks_deadline = true ∧
     SdnsVerif.Gen.C12.shape_resolvestate_literals_carry_work = true ∧
-    SdnsVerif.Gen.C12.shape_cacheable_reads_ledger_at_decision = true := by decide
+    SdnsVerif.Gen.C12.shape_cacheable_reads_ledger_at_decision = true ∧
+    SdnsVerif.Gen.C12.shape_resolve_relabels_unconditionally = true ∧
+    SdnsVerif.Gen.C12.shape_checkhosts_uses_request_context = true := by decide
 
 /-! ### non-vacuity -/
 
@@ -610,6 +641,10 @@ example : (runOps { pol2 with caps := KTab.ofList 0 [9, 9, 4, 8, 2, 2, 2, 2] } {
 example : pickFallback [2] 0 [.workLimit] = .work := by decide
 example : pickFallback [2, 3] 1 [.other] = .resp 1 := by decide
 example : zoneFailureRecordable true false false none = true := by decide
+
+-- the refresh branch swallowed a refused debit, resolve() still found its answer: the outcome is the policy error
+example : resolveOutcome pol2 { first := Kind.internal.idx + 1 } .answer = .policy .internal 1 := by decide
+example : resolveOutcome pol2 {} .answer = .answer := by decide
 
 -- a chase that took three hops, then the deadline passed: the next two hop attempts start nothing
 example : (chaseRun {} [.hop, .hop, .hop, .deadline, .hop, .hop]).started = 3 := by decide
